@@ -149,7 +149,50 @@ def signature_of(ops, r):
     m = re.match(r"\d+ new-shm \d+ (m\d) ", op + " ")
     if m and impl == "fail" and spec.startswith("ok") and any(re.match(r"\d+ crashA? 1 new-shm \d+ %s " % m.group(1), o + " ") for o in ops[:at]):
         return "crash-leaves-zero-size-segment"
+    # creator killed after mmap/close but before it made the lock; a follower re-created the lock and its plain
+    # free unlinked it while the segment lives on: the lock name is gone / a second lock object exists
+    cr = [re.match(r"\d+ crashA? [34] new-shm \d+ (m\d) ", o + " ") for o in ops[:at]]
+    cr = [m.group(1) for m in cr if m]
+    if cr and any(re.match(r"\d+ free \d+$", o) for o in ops[:at]):
+        if re.match(r"\d+ lock \d+", op) and spec == "would-block" and impl == "ok":
+            return "follower-free-unlinks-lock-after-creator-crash"
+        if op == "obs":
+            for name in cr:
+                a = re.search(r"\b%s=(\d+)/(\S+)" % name, impl)
+                b = re.search(r"\b%s=(\d+)/(\S+)" % name, spec)
+                if a and b and a.group(1) == b.group(1) and a.group(2) == "-" and b.group(2) != "-":
+                    return "follower-free-unlinks-lock-after-creator-crash"
     return None
+
+
+def shrink_keep(fam, ops, kind, sig, budget=60):
+    """delta debugging that keeps kind AND signature of the failure and never accepts a candidate in which
+    the model itself would block (such a history is not a legal one: the harness would just wait)"""
+    def ok(cand):
+        r = diffrun.judge(fam, cand)
+        if r is None or r["kind"] != kind or signature_of(cand, r) != sig:
+            return False
+        d = r.get("detail", "")
+        return "TIMEOUT" not in d and not re.search(r"\(model '[^']*would-block", d)
+    cur, tries, chunk = list(ops), 0, max(1, len(ops) // 2)
+    while chunk >= 1 and tries < budget:
+        i, progressed = 0, False
+        while i < len(cur) and tries < budget:
+            cand = cur[:i] + cur[i + chunk:]
+            if not cand:
+                i += chunk
+                continue
+            tries += 1
+            if ok(cand):
+                cur, progressed = cand, True
+            else:
+                i += chunk
+        if chunk == 1 and not progressed:
+            break
+        chunk = max(1, chunk // 2) if chunk > 1 else (1 if progressed else 0)
+        if chunk == 0:
+            break
+    return cur
 
 
 class Runner:
@@ -171,7 +214,7 @@ class Runner:
             else:
                 self.unsigned += 1
             return
-        small = diffrun.shrink(self.fam, ops[: r["at"] + 1] if r["at"] < len(ops) else ops, r["kind"], budget=60)
+        small = shrink_keep(self.fam, ops[: r["at"] + 1] if r["at"] < len(ops) else ops, r["kind"], pre, budget=60)
         r2 = diffrun.judge(self.fam, small) or r
         sig = signature_of(small, r2) or signature_of(ops, r)
         if sig is not None:
